@@ -162,6 +162,18 @@ def r2(ctx):
                 ctx.check(b.path in allowed, "C06.R2", b.path, "commit-caller", "commit is called only by the transaction managers", t["sp"])
     if nc < 6:
         raise mir.AnchorMissing("expected >=6 commit call sites, found %d" % nc)
+    # durability is never lowered: a non-durable commit makes flush() acknowledge data that a crash loses.
+    # (expected count zero; the positive control is the number of redb::WriteTransaction calls seen)
+    wt_calls = 0
+    for b in f.bodies.values():
+        for bi, t in b.calls():
+            if callee_matches(t, r"redb::(WriteTransaction|Database|Builder)::"):
+                wt_calls += 1
+                if t["f"].get("name") in ("set_durability", "set_two_phase_commit", "set_quick_repair"):
+                    lowered = True
+                    ctx.bad("C06.R2", b.path, "transaction-durability-changed.%s" % t["f"].get("name"),
+                            "the store changes the durability / commit mode of a redb write transaction: writes that land in that transaction are acknowledged by flush() without being durable", t["sp"])
+    ctx.check(wt_calls >= 8, "C06.R2", "store::fs", "redb-transaction-calls-inventoried", "%d calls on redb::WriteTransaction/Database inspected for durability changes (none may lower it)" % wt_calls, None)
     ctx.floor("C06.R2", 20)
 
 
